@@ -610,8 +610,14 @@ class SVG:
         self._resolve_use(clip_path_el)
 
         transform = _element_transform(clip_path_el, transform)
+        # clip-rule is inherited: set on the clipPath it holds for every child without its own
+        inherited = {
+            k: clip_path_el.attrib[k] for k in ("clip-rule",) if k in clip_path_el.attrib
+        }
         clip_paths = [
-            from_element(e).apply_transform(_element_transform(e, transform))
+            from_element(e, **inherited).apply_transform(
+                _element_transform(e, transform)
+            )
             for e in clip_path_el
         ]
 
